@@ -40,7 +40,7 @@ def dumpStorage (sites : List CallSite) (li : Nat) (st : Storage) : List String 
 
 def capFlush (st : CapState) : List String :=
   if !st.active then [] else
-  if st.bad then ["bad-input"] else
+  if st.bad || !(st.ops.all (opSiteOk st.sites.length)) then ["bad-input"] else
   let w := captureRun st.filters st.global st.sites st.ops.reverse
   (if w.panicked then ["panic"] else []) ++
     (w.storages.zipIdx.flatMap fun (s, i) => dumpStorage st.sites i s)
